@@ -349,7 +349,8 @@ impl<'c, KD: Kind, const N: usize> MapEng<'c, KD, N> {
         if pos.len() >= 2 && pos.windows(2).any(|w2| w2[0] > w2[1]) && slot.swapped && !dup_any {
             cx.bump(S::disjoint_reordered);
         }
-        let qos: [KD::QO; J] = core::array::from_fn(|i| KD::qo(keys[i]));
+        // equal queries may be spelled differently (borrowed forms whose equality is not byte equality)
+        let qos: [KD::QO; J] = core::array::from_fn(|i| KD::qo_alt(keys[i], i));
         let probes: [KD::K; J] = core::array::from_fn(|i| KD::key(keys[i]));
         let nv = |i: usize| KD::vnorm(base | ((i as u32) << 5) | 0x10);
         let m = &mut slot.c.m;
